@@ -17,7 +17,8 @@ from __future__ import annotations
 import ast
 
 from ..cfg import ENTRY, EXIT, header_parts
-from ..loader import AnalysisError, dotted, norm, walk_no_nested
+from ..flow import Defs, Scope, arg, caller_object_mutations, guards, iterations
+from ..loader import AnalysisError, FuncInfo, dotted, norm, walk_no_nested
 from ..report import Ctx
 from ..selftest import Mutant
 
@@ -34,170 +35,302 @@ TRUSTED = ["CPython ast parser", "call graph resolution", "`a | b` builds a new 
 DECLINED = ["equality of cached and uncached values over call histories (needs execution)", "eviction timing; hash collisions of user-defined __hash__"]
 
 
-def check(ctx: Ctx) -> None:  # noqa: C901, PLR0912, PLR0915
-    P, cg = ctx.prog, ctx.cg
-    run_ = P.func(f"{BASE}.Pipeline._run")
-    cfg = ctx.cfg(run_)
+def _flat_or(e: ast.AST) -> list[ast.AST]:
+    if isinstance(e, ast.BinOp) and isinstance(e.op, ast.BitOr):
+        return _flat_or(e.left) + _flat_or(e.right)
+    if isinstance(e, ast.Dict) and all(k is None for k in e.keys):
+        return list(e.values)
+    return [e]
 
-    # ------------------------------------------------------------ 1 key-complete
-    ck_nodes = cfg.nodes(lambda s: any(isinstance(c, ast.Call) and dotted(c.func) == "compute_cache_key" for part in header_parts(s) for c in ast.walk(part)))
-    if len(ck_nodes) != 1:
-        raise AnalysisError(f"Pipeline._run: expected one compute_cache_key call, found {len(ck_nodes)}")
-    ck_stmt = cfg.stmt[ck_nodes[0]]
-    par = {id(c): p for p in ast.walk(run_.node) for c in ast.iter_child_nodes(p)}
-    x: ast.AST = ck_stmt
-    guard = None
-    while id(x) in par:
-        child, x = x, par[id(x)]
-        if isinstance(x, ast.If) and child in x.orelse and "flat_scope_kwargs" in norm(x.test):
-            guard = x
-            break
-    ok, why = False, "a call that supplies an intermediate value still uses (and fills) the root-argument cache entry"
-    if guard is not None:
-        comps = [g for g in ast.walk(guard.test) if isinstance(g, ast.comprehension)]
-        single_names = bool(comps) and norm(comps[0].iter) in ("flat_scope_kwargs", "flat_scope_kwargs.keys()") and any(
-            isinstance(c, ast.Compare) and isinstance(c.ops[0], ast.In) and norm(c.comparators[0]) == "self.output_to_func" and norm(c.left) == norm(comps[0].target) for c in ast.walk(guard.test))
-        none_key = any(isinstance(s, ast.Assign) and norm(s.targets[0]) == "cache_key" and norm(s.value) == "None" for s in guard.body)
-        ok = single_names and none_key and isinstance(guard.test, ast.Call) and dotted(guard.test.func) == "any"
-        why = "any supplied name that is a function output (single names of tuple outputs included) disables the key" if ok else (
-            "the supplied-intermediate guard does not test every supplied name against output_to_func (names of tuple outputs slip through)" if none_key else why)
-    ctx.add("1-key-complete", run_, guard if guard is not None else ck_stmt, ok, why, key="intermediate-disables-key")
-    call = next(c for c in ast.walk(ck_stmt) if isinstance(c, ast.Call) and dotted(c.func) == "compute_cache_key")
-    a = [norm(x_) for x_ in call.args]
-    ok = len(a) == 3 and a[0] == "func.output_name" and a[2] == "root_args"
-    ctx.add("1-key-complete", run_, call, ok, "key = (func.output_name, values of root_args)" if ok else f"compute_cache_key is called with {a}", key="key-args")
-    merged = call.args[1] if len(call.args) > 1 else None
-    ops = []
 
-    def flat(e):
-        if isinstance(e, ast.BinOp) and isinstance(e.op, ast.BitOr):
-            flat(e.left)
-            flat(e.right)
-        else:
-            ops.append(norm(e))
+def _kind_of_operand(e: ast.AST) -> str:
+    t = norm(e)
+    if "_bound" in t or ".bound" in t:
+        return "bound"
+    if "defaults" in t:
+        return "defaults"
+    return "supplied" if isinstance(e, ast.Name) else "?"
 
-    if merged is not None:
-        flat(merged)
-    ok = ops == ["self._func_defaults(func)", "flat_scope_kwargs", "func._bound"]
-    ctx.add("1-key-complete", run_, merged if merged is not None else call, ok, "key values come from a fresh merge defaults | supplied | bound (same precedence as the call)" if ok else
-            f"the key values are taken from {ops or norm(merged) if merged is not None else '?'}: not a fresh merge with the call's precedence", key="merge")
+
+def _key_site(ctx: Ctx):
+    run_ = ctx.prog.func(f"{BASE}.Pipeline._run")
+    sites = [(f, c) for f, c in Scope(ctx, run_).calls("compute_cache_key") if f.module.name == run_.module.name]
+    if len(sites) != 1:
+        raise AnalysisError(f"Pipeline._run and its helpers: expected one compute_cache_key call, found {len(sites)}")
+    return run_, sites[0][0], sites[0][1]
+
+
+def rule_key_complete(ctx: Ctx) -> None:  # noqa: C901, PLR0912, PLR0915
+    P = ctx.prog
+    run_, kf, call = _key_site(ctx)
+    d = Defs(kf)
+    merged = d.resolve(arg(call, 1, "kwargs")) if arg(call, 1, "kwargs") is not None else None
+    ops = _flat_or(merged) if merged is not None else []
+    kinds = [_kind_of_operand(o) for o in ops]
+    supplied = {o.id for o, k in zip(ops, kinds) if k == "supplied"}
+    # ---- the values hashed have the precedence of the actual call: defaults < supplied < bound
+    if set(kinds) >= {"defaults", "supplied", "bound"} and "?" not in kinds:
+        order_ok = kinds.index("defaults") < kinds.index("supplied") < kinds.index("bound")
+        ctx.add("1-key-complete", kf, call, order_ok, "key values come from a fresh merge defaults | supplied | bound (the precedence of the call)" if order_ok else
+                f"the key values are merged as {kinds}: a value that the call does not use decides the key (the call takes bound over supplied over defaults)", key="merge")
+    else:
+        ctx.add("1-key-complete", kf, call, None, f"UNDECIDED: key values `{norm(merged)[:80] if merged is not None else '?'}` are not a recognised merge of defaults, supplied and bound values", key="merge")
+    # ---- supplied intermediates disable the key
+    scopes = [f for f in Scope(ctx, run_).funcs if f.module.name == run_.module.name]
+    good = bad_whole = False
+    any_relation = False
+    for f in scopes:
+        names = set(supplied) | {p for p in f.param_names() if "kwargs" in p}
+        its = iterations(f.node)
+        elem_of_supplied = {x.id for it in its if norm(it["iter"]).split(".")[0] in names for x in ast.walk(it["target"]) if isinstance(x, ast.Name)}
+        for c in [c for c in ast.walk(f.node) if isinstance(c, ast.Compare) and len(c.ops) == 1 and isinstance(c.ops[0], (ast.In, ast.NotIn))]:
+            lt, rt = norm(c.left), norm(c.comparators[0])
+            if rt.endswith("output_to_func") and isinstance(c.left, ast.Name) and c.left.id in elem_of_supplied:
+                good = any_relation = True
+            if rt.split(".")[0] in names and isinstance(c.left, ast.Attribute) and c.left.attr == "output_name":
+                bad_whole = any_relation = True
+        for c in [c for c in ast.walk(f.node) if isinstance(c, (ast.BinOp, ast.Call))]:
+            t = norm(c)
+            if "output_to_func" in t and any(n_ in t for n_ in names) and (isinstance(c, ast.BinOp) and isinstance(c.op, ast.BitAnd) or "isdisjoint" in t or "intersection" in t):
+                good = any_relation = True
+    ctx.tri("1-key-complete", kf, call, good and not bad_whole, bad_whole or not any_relation,
+            "any supplied name that is a function output (single names of tuple outputs included) disables the key",
+            "the supplied names are compared with whole output names (tuple outputs slip through)" if bad_whole else
+            "no test relates the supplied names to the pipeline's outputs: a call that supplies an intermediate value still uses (and fills) the root-argument cache entry",
+            key="intermediate-disables-key")
+    # ---- the memoised per-function defaults are never mutated
     muts = []
-    for fn in (run_, P.func(f"{BASE}.Pipeline._get_func_args")):
-        aliases = {norm(s.targets[0]) for s in walk_no_nested(fn.node) if isinstance(s, ast.Assign) and "_func_defaults(" in norm(s.value) and "|" not in norm(s.value) and ".copy()" not in norm(s.value)}
+    for fn in {kf, run_, P.func(f"{BASE}.Pipeline._get_func_args")}:
+        aliases = {norm(s.targets[0]) for s in walk_no_nested(fn.node) if isinstance(s, ast.Assign) and "_func_defaults(" in norm(s.value) and "|" not in norm(s.value) and ".copy()" not in norm(s.value) and not norm(s.value).startswith("dict(")}
         for n in walk_no_nested(fn.node):
             if isinstance(n, ast.Call) and isinstance(n.func, ast.Attribute) and n.func.attr in ("update", "setdefault", "pop", "clear") and (norm(n.func.value) in aliases or "_func_defaults(" in norm(n.func.value)):
-                muts.append(n)
+                muts.append((fn, n))
             if isinstance(n, (ast.Assign, ast.AugAssign)):
                 for t in (n.targets if isinstance(n, ast.Assign) else [n.target]):
                     if isinstance(t, ast.Subscript) and norm(t.value) in aliases:
-                        muts.append(n)
+                        muts.append((fn, n))
                 if isinstance(n, ast.AugAssign) and isinstance(n.op, ast.BitOr) and norm(n.target) in aliases:
-                    muts.append(n)
-    ctx.add("1-key-complete", run_, muts[0] if muts else run_.node, not muts, "the memoised per-function defaults are never mutated" if not muts else
-            f"`{norm(muts[0])[:60]}` writes into the dict that _func_defaults memoises: values of one call leak into the key of the next", key="defaults-not-mutated")
+                    muts.append((fn, n))
+    ctx.add("1-key-complete", muts[0][0] if muts else run_, muts[0][1] if muts else run_.node, not muts, "the memoised per-function defaults are never mutated" if not muts else
+            f"`{norm(muts[0][1])[:60]}` writes into the dict that _func_defaults memoises: values of one call leak into the key of the next", key="defaults-not-mutated")
     fd = P.func(f"{BASE}.Pipeline._func_defaults")
-    ok = "defaults = func.defaults.copy()" in norm(fd.node)
-    ctx.add("1-key-complete", fd, fd.node, ok, "_func_defaults works on a copy of the function's defaults" if ok else "_func_defaults hands out / mutates the function's own defaults dict", key="func-defaults-copy")
+    fparam = [p for p in fd.param_names() if p != "self"][0]
+    stores = [n for n in walk_no_nested(fd.node) if (isinstance(n, ast.Call) and isinstance(n.func, ast.Attribute) and n.func.attr in ("update", "setdefault", "pop", "clear") and norm(n.func.value) == f"{fparam}.defaults")
+              or (isinstance(n, (ast.Assign, ast.Delete)) and any(isinstance(t, ast.Subscript) and norm(t.value) == f"{fparam}.defaults" for t in n.targets))]
+    alias_stores = []
+    for s_ in [s_ for s_ in walk_no_nested(fd.node) if isinstance(s_, ast.Assign) and norm(s_.value) == f"{fparam}.defaults" and isinstance(s_.targets[0], ast.Name)]:
+        nm = s_.targets[0].id
+        alias_stores += [n for n in walk_no_nested(fd.node) if (isinstance(n, (ast.Assign, ast.Delete)) and any(isinstance(t, ast.Subscript) and norm(t.value) == nm for t in n.targets))
+                         or (isinstance(n, ast.Call) and isinstance(n.func, ast.Attribute) and n.func.attr in ("update", "setdefault", "pop", "clear") and norm(n.func.value) == nm)]
+    bad_ = stores + alias_stores
+    ctx.add("1-key-complete", fd, bad_[0] if bad_ else fd.node, not bad_, "_func_defaults never writes into the function's own defaults dict" if not bad_ else
+            f"`{norm(bad_[0])[:60]}` writes into the function's own defaults dict", key="func-defaults-copy")
+    # ---- compute_cache_key: every root argument's value enters the key; a missing one disables it
     cck = P.func(f"{CA}.compute_cache_key")
-    src = norm(cck.node)
-    loops_ = [lp for lp in walk_no_nested(cck.node) if isinstance(lp, ast.For)]
-    ok = len(loops_) == 1 and norm(loops_[0].iter) == "root_args" and "if k not in kwargs" in src and "return None" in src and "to_hashable(kwargs[k])" in src
-    ctx.add("1-key-complete", cck, cck.node, ok, "every root argument's value enters the key; a missing one disables it" if ok else "compute_cache_key no longer covers every root argument", key="all-root-args")
+    ps = cck.param_names()
+    ra = ps[2] if len(ps) > 2 else "root_args"
+    its = [it for it in iterations(cck.node) if ra in {x.id for x in ast.walk(it["iter"]) if isinstance(x, ast.Name)}]
+    partial = [it for it in its if isinstance(it["iter"], ast.Subscript)]
+    none_ret = any(isinstance(r, ast.Return) and (r.value is None or (isinstance(r.value, ast.Constant) and r.value.value is None)) for r in ast.walk(cck.node))
+    ctx.tri("1-key-complete", cck, (partial or its or [{"node": cck.node}])[0]["node"], bool(its) and not partial and none_ret, bool(partial),
+            "every root argument's value enters the key; a missing one disables it", f"only `{norm(partial[0]['iter']) if partial else ''}` of the root arguments enter the key: calls differing in the others share an entry",
+            "iteration over the root arguments not recognised", key="all-root-args")
+    src = Scope(ctx, cck).text()
     bound_in_key = "bound" in src.lower()
     ctx.add("1-key-complete", cck, cck.node, bound_in_key, "bound values of the function and its dependencies are part of the key" if bound_in_key else
             "bound values are not part of the key: the key holds root arguments only and bound parameters are by construction never root arguments, so a changed bound value is answered from the old entry", key="bound-in-key")
-    ra = P.func(f"{BASE}.Pipeline._run")
-    ok = "root_args = self.root_args(output_name)" in norm(ra.node)
-    ctx.add("1-key-complete", ra, ra.node, ok, "root arguments of the requested output" if ok else "root_args of another output are used for the key", key="root-args-of-output")
 
-    # ------------------------------------------------------------ 2 invalidate
-    CLEARERS = {"clear"}
+
+def rule_invalidate(ctx: Ctx) -> None:
+    P, cg = ctx.prog, ctx.cg
     for q, what in ((f"{BASE}.Pipeline.replace", "replacing a function"), (f"{BASE}.Pipeline.drop", "dropping a function"), (f"{BASE}.Pipeline.nest_funcs", "nesting functions"),
                     ("pipefunc._pipefunc.PipeFunc.update_bound", "changing bound values")):
         f = P.func(q)
         reach = cg.reachable(q)
-        clears = any(isinstance(c, ast.Call) and isinstance(c.func, ast.Attribute) and c.func.attr in CLEARERS and "cache" in norm(c.func.value) and "_internal" not in norm(c.func.value)
+        clears = any(isinstance(c, ast.Call) and isinstance(c.func, ast.Attribute) and c.func.attr == "clear" and "cache" in norm(c.func.value) and "_internal" not in norm(c.func.value)
                      for r in reach if r in P.functions and P.functions[r].module.name.startswith(("pipefunc._pipeline", "pipefunc._pipefunc")) for c in ast.walk(P.functions[r].node))
         ctx.add("2-invalidate", f, f.node, clears, f"{what} clears the result cache" if clears else
                 f"{what} neither clears the result cache nor changes a key component (_clear_internal_cache only drops cached properties): stale values are returned afterwards", key=f"mutator {f.name}")
-    pci = P.func(f"{BASE}.Pipeline._clear_internal_cache")
-    ctx.add("2-invalidate", pci, pci.node, True, "analysed: _clear_internal_cache clears cached *properties*, it is not counted as a result-cache invalidation", key="distinguish")
 
-    # ------------------------------------------------------------ 3 isolation
+
+def rule_isolation(ctx: Ctx) -> None:
+    P = ctx.prog
     cc = P.func(f"{CA}.create_cache")
     dflt = [c for c in ast.walk(cc.node) if isinstance(c, ast.Call) and norm(c.func).endswith(".setdefault") and c.args and isinstance(c.args[0], ast.Constant) and c.args[0].value == "cache_dir"]
-    if not dflt:
-        raise AnalysisError("create_cache: default for cache_dir not found")
-    v = norm(dflt[0].args[1])
-    private = any(t in v for t in ("mkdtemp", "TemporaryDirectory"))
-    ctx.add("3-isolation", cc, dflt[0], private, "default disk-cache directory is a fresh private directory" if private else
-            f"default disk-cache directory is `{v}`, shared by every pipeline (and user) of the machine: equal (output name, root values) of unrelated pipelines hit each other's entries, and clear() deletes foreign *.pkl files", key="cache-dir-default")
-    ok = "cache_kwargs = {} if cache_kwargs is None else dict(cache_kwargs)" in norm(cc.node)
-    ctx.add("3-isolation", cc, cc.node, ok, "the caller's cache_kwargs are copied" if ok else "create_cache writes into the caller's cache_kwargs (shared between pipeline copies)", key="kwargs-copied")
+    if dflt:
+        v = norm(Defs(cc).resolve(dflt[0].args[1]))
+        private = any(t in v for t in ("mkdtemp", "TemporaryDirectory"))
+        shared = "gettempdir" in v or v.startswith(("'", '"'))
+        ctx.tri("3-isolation", cc, dflt[0], private, shared, "default disk-cache directory is a fresh private directory",
+                f"default disk-cache directory is `{v}`, shared by every pipeline (and user) of the machine: equal (output name, root values) of unrelated pipelines hit each other's entries, and clear() deletes foreign *.pkl files",
+                f"default cache_dir `{v}` not classified", key="cache-dir-default")
+    else:
+        ctx.add("3-isolation", cc, cc.node, None, "UNDECIDED: default for cache_dir not found", key="cache-dir-default")
+    kw = [p for p in cc.param_names() if "kwargs" in p]
+    for p in kw:
+        m = caller_object_mutations(ctx.cfg(cc), cc.node, p)
+        ctx.add("3-isolation", cc, m[0] if m else cc.node, not m, f"the caller's `{p}` is never written to" if not m else
+                f"`{norm(m[0])[:60]}` writes into the caller's `{p}` dict (shared between pipeline copies): one pipeline's cache settings leak into the other's", key="kwargs-copied")
     init = P.func(f"{BASE}.Pipeline.__init__")
-    ok = "self.cache = create_cache(cache_type, lazy, cache_kwargs)" in norm(init.node)
-    ctx.add("3-isolation", init, init.node, ok, "every pipeline constructs its own cache object" if ok else "Pipeline.__init__ no longer creates its own cache", key="own-cache")
+    own = [s for s in ast.walk(init.node) if isinstance(s, ast.Assign) and any(norm(t) == "self.cache" for t in s.targets)]
+    made = [s for s in own if any(isinstance(c, ast.Call) and dotted(c.func) == "create_cache" for c in ast.walk(Defs(init).resolve(s.value)))]
+    ctx.tri("3-isolation", init, own[0] if own else init.node, bool(made), False, "every pipeline constructs its own cache object", "", "self.cache is not assigned from create_cache(...)", key="own-cache")
 
-    # ------------------------------------------------------------ 4 map-key
+
+def _splatted(ctx: Ctx, owner: FuncInfo, fnode: ast.AST, depth: int = 2) -> set[str]:
+    """Texts X of `callee(**X)` in `fnode`, looking through private helpers that receive X as an argument."""
+    out: set[str] = set()
+    for c in [c for c in ast.walk(fnode) if isinstance(c, ast.Call)]:
+        for k in c.keywords:
+            if k.arg is None:
+                out.add(norm(k.value))
+        if depth and isinstance(c.func, ast.Name):
+            for callee in ctx.cg.resolve_callable(owner, c.func):
+                if callee.module.name != owner.module.name or not callee.name.startswith("_") or callee.name in ("_get_or_set_cache",):
+                    continue
+                inner = _splatted(ctx, callee, callee.node, depth - 1)
+                ps = callee.param_names()
+                for i, a in enumerate(c.args):
+                    if i < len(ps) and ps[i] in inner:
+                        out.add(norm(a))
+    return out
+
+
+def rule_map_key(ctx: Ctx) -> None:
+    P = ctx.prog
     gk = P.func("pipefunc.map._run._get_or_set_cache")
-    ks = [s for s in walk_no_nested(gk.node) if isinstance(s, ast.Assign) and norm(s.targets[0]) == "cache_key"]
-    ok = bool(ks) and norm(ks[0].value) == "(func.output_name, to_hashable(kwargs))"
-    ctx.add("4-map-key", gk, ks[0] if ks else gk.node, ok, "key = (func.output_name, to_hashable(kwargs)) - the hashable itself, not a hash of it" if ok else
-            f"map cache key is `{norm(ks[0].value) if ks else '?'}`", key="key")
-    for q, var in (("pipefunc.map._run._run_iteration", "selected"), ("pipefunc.map._run._execute_single", "kwargs")):
+    d = Defs(gk)
+    sc = Scope(ctx, gk)
+    keys = []
+    for f, n in sc.walk():
+        if f is not gk:
+            continue
+        if isinstance(n, ast.Call) and isinstance(n.func, ast.Attribute) and n.func.attr in ("get", "put") and norm(n.func.value) == "cache" and n.args:
+            keys.append((n.func.attr, norm(d.resolve(n.args[0])), n))
+        if isinstance(n, ast.Compare) and len(n.ops) == 1 and isinstance(n.ops[0], (ast.In, ast.NotIn)) and norm(n.comparators[0]) == "cache":
+            keys.append(("in", norm(d.resolve(n.left)), n))
+        if isinstance(n, ast.Call) and isinstance(n.func, ast.Name) and n.func.id.startswith("_") and any(norm(a) == "cache" for a in n.args):
+            for a in n.args:
+                if "hashable" in norm(d.resolve(a)):
+                    keys.append(("helper", norm(d.resolve(a)), n))
+    texts = {t for _k, t, _n in keys}
+    hashed = [t for t in texts if "hash(" in t.replace("to_hashable(", "")]
+    ctx.tri("4-map-key", gk, keys[0][2] if keys else gk.node, len(texts) == 1 and not hashed and "to_hashable(" in next(iter(texts), ""), bool(hashed) or len(texts) > 1,
+            "one key object - the hashable itself, not a hash of it - is used for the test, the get and the put",
+            f"the key is `{hashed[0][:70]}`: a hash of the arguments, so colliding hashes return another call's value" if hashed else f"test/get/put use different keys: {sorted(texts)}",
+            "key construction not recognised", key="key")
+    for q in ("pipefunc.map._run._run_iteration", "pipefunc.map._run._execute_single"):
         f = P.func(q)
-        c = [c for c in ast.walk(f.node) if isinstance(c, ast.Call) and dotted(c.func) == "_get_or_set_cache"]
-        comp = f.nested.get("compute_fn")
-        called_with = [norm(k.value) for cc_ in ast.walk(comp.node) if isinstance(cc_, ast.Call) and norm(cc_.func) == "func" for k in cc_.keywords if k.arg is None] if comp else []
-        ok = bool(c) and [norm(a_) for a_ in c[0].args] == ["func", var, "cache", "compute_fn"] and called_with == [var]
-        ctx.add("4-map-key", f, c[0] if c else f.node, ok, f"hashes `{var}` and calls func(**{var})" if ok else f"the kwargs that are hashed ({[norm(a_) for a_ in c[0].args][1:2] if c else '?'}) are not the ones the function is called with ({called_with})", key=f"same-kwargs {f.name}")
-    src = norm(gk.node)
-    ok = "if cache is None" in src and "return compute_fn()" in src and "result = compute_fn()" in src and "cache.put(cache_key, result" in src and src.rstrip().endswith("return result")
-    ctx.add("4-map-key", gk, gk.node, ok, "miss: compute, store under the same key, return the computed value" if ok else "_get_or_set_cache miss path changed", key="miss-path")
-    # (_run_iteration_and_process passes its cache through)
-    rip = P.func("pipefunc.map._run._run_iteration_and_process")
-    ok = "_run_iteration(func, selected, cache)" in norm(rip.node)
-    ctx.add("4-map-key", rip, rip.node, ok, "the element run uses the pipeline's cache" if ok else "_run_iteration is not given (func, selected, cache)", key="passes-cache")
+        fd_ = Defs(f)
+        cs = [c for c in ast.walk(f.node) if isinstance(c, ast.Call) and dotted(c.func) == "_get_or_set_cache"]
+        if not cs:
+            delegating = [c for c in ast.walk(f.node) if isinstance(c, ast.Call) and dotted(c.func) in ("_run_iteration",)]
+            ctx.tri("4-map-key", f, f.node, bool(delegating), False, "delegates to _run_iteration", "", "no _get_or_set_cache call", key=f"same-kwargs {f.name}")
+            continue
+        c = cs[0]
+        hashed_kw = arg(c, 1, "kwargs")
+        comp = arg(c, 3, "compute_fn")
+        bodies: list[ast.AST] = []
+        if isinstance(comp, ast.Lambda):
+            bodies = [comp]
+        elif isinstance(comp, ast.Name) and comp.id in f.nested:
+            bodies = [f.nested[comp.id].node]
+        elif comp is not None:
+            r = fd_.resolve(comp)
+            bodies = [r] if isinstance(r, (ast.Lambda, ast.Call)) else []
+        called = set()
+        for b in bodies:
+            called |= _splatted(ctx, f, b)
+            if isinstance(b, ast.Call) and dotted(b.func) in ("functools.partial", "partial") and b.args:
+                called -= {norm(a) for a in b.args}
+                for callee in ctx.cg.resolve_callable(f, b.args[0]):
+                    inner = _splatted(ctx, callee, callee.node, 1)
+                    ps_ = callee.param_names()
+                    called |= {norm(a) for i, a in enumerate(b.args[1:]) if i < len(ps_) and ps_[i] in inner}
+        h = norm(hashed_kw) if hashed_kw is not None else "?"
+        ctx.tri("4-map-key", f, c, bool(called) and called == {h}, bool(called) and h not in called and not any(h in x for x in called),
+                f"hashes `{h}` and calls the function with exactly those kwargs", f"the kwargs that are hashed (`{h}`) are not the ones the function is called with ({sorted(called)})",
+                f"could not relate the hashed kwargs `{h}` to the call {sorted(called)}", key=f"same-kwargs {f.name}")
 
-    # ------------------------------------------------------------ 5 miss-tolerant
+
+def rule_miss_tolerant(ctx: Ctx) -> None:
+    P = ctx.prog
     n5 = 0
     for q in ("pipefunc.map._run._get_or_set_cache", f"{CA}.get_result_from_cache", "pipefunc.cache.memoize.decorator.wrapper"):
         f = P.func(q)
-        for s in [s for s in walk_no_nested(f.node) if isinstance(s, ast.If)]:
-            tests = [c for c in ast.walk(s.test) if isinstance(c, ast.Compare) and len(c.ops) == 1 and isinstance(c.ops[0], ast.In) and norm(c.comparators[0]) == "cache"]
-            gets = [c for st in s.body for c in ast.walk(st) if isinstance(c, ast.Call) and norm(c.func) == "cache.get"]
-            if not tests or not gets:
-                continue
-            n5 += 1
-            sentinel = any(k.arg in ("default",) for g in gets for k in g.keywords) or any(len(g.args) > 1 for g in gets)
-            ctx.add("5-miss-tolerant", f, s, sentinel, "get() is told apart from a miss" if sentinel else
-                    "`key in cache` followed by `cache.get(key)`: with a shared cache another process can evict the entry in between, and the None returned for the miss is used as the cached result", key="check-then-get")
+        tests = [c for c in ast.walk(f.node) if isinstance(c, ast.Compare) and len(c.ops) == 1 and isinstance(c.ops[0], (ast.In, ast.NotIn)) and norm(c.comparators[0]) == "cache"]
+        gets = [c for c in ast.walk(f.node) if isinstance(c, ast.Call) and norm(c.func) == "cache.get"]
+        pairs = [(t, g) for t in tests for g in gets if g.args and norm(g.args[0]) == norm(t.left)]
+        if not pairs:
+            ctx.add("5-miss-tolerant", f, f.node, True if not tests or not gets else None, "no membership test followed by get() on the same key" if not tests or not gets else "UNDECIDED: test and get use different key expressions", key="check-then-get")
+            continue
+        n5 += 1
+        sentinel = all(any(k.arg == "default" for k in g.keywords) or len(g.args) > 1 for _t, g in pairs)
+        ctx.add("5-miss-tolerant", f, pairs[0][0], sentinel, "get() is told apart from a miss" if sentinel else
+                "`key in cache` followed by `cache.get(key)`: with a shared cache another process can evict the entry in between, and the None returned for the miss is used as the cached result", key="check-then-get")
     ctx.floor("5-miss-tolerant", n5, 3)
 
-    # ------------------------------------------------------------ 6 short-circuit
+
+def rule_short_circuit(ctx: Ctx) -> None:  # noqa: C901, PLR0915
+    P = ctx.prog
+    run_ = P.func(f"{BASE}.Pipeline._run")
+    cfg = ctx.cfg(run_)
+    d = Defs(run_)
     exe = cfg.nodes(lambda s: any(isinstance(c, ast.Call) and dotted(c.func) == "_execute_func" for part in header_parts(s) for c in ast.walk(part)))
-    rn = cfg.nodes(lambda s: isinstance(s, ast.If) and norm(s.test) == "return_now")
-    rfc = cfg.nodes(lambda s: isinstance(s, ast.If) and norm(s.test) == "result_from_cache")
-    ok = bool(exe) and bool(rn) and bool(rfc) and all(isinstance(cfg.stmt[n].body[-1], ast.Return) for n in rn + rfc) and all(cfg.dominates(rfc[0], e) for e in exe)
-    ok = ok and all(cfg.dominates(r, rfc[0]) or True for r in rn)
-    ctx.add("6-short-circuit", run_, cfg.stmt[rn[0]] if rn else run_.node, ok, "a hit returns before _execute_func (directly, or after collecting the arguments for full_output)" if ok else "a cache hit does not prevent the execution", key="hit-returns")
-    grc = [c for c in ast.walk(run_.node) if isinstance(c, ast.Call) and dotted(c.func) == "get_result_from_cache"]
-    a = [norm(x_) for x_ in grc[0].args] if grc else []
-    ok = a == ["func", "cache", "cache_key", "output_name", "all_results", "full_output", "used_parameters", "self.lazy"]
-    ctx.add("6-short-circuit", run_, grc[0] if grc else run_.node, ok, "the hit is routed with the pipeline's lazy flag, like a fresh result" if ok else f"get_result_from_cache is called with {a}: a hit is routed differently from a fresh result (e.g. the lazy flag is dropped)", key="hit-routing")
+    hit = [s for s in walk_no_nested(run_.node) if isinstance(s, ast.Assign) and isinstance(s.value, ast.Call) and dotted(s.value.func) == "get_result_from_cache"]
+    if not exe or not hit:
+        raise AnalysisError("Pipeline._run: _execute_func / get_result_from_cache sites not found")
+    flags = [x.id for t in hit[0].targets for x in ast.walk(t) if isinstance(x, ast.Name)]
+    for i, flag in enumerate(flags[:2]):
+        tests = cfg.nodes(lambda s, flag=flag: isinstance(s, ast.If) and any(isinstance(x, ast.Name) and x.id == flag for x in ast.walk(s.test)))
+        returning = [n for n in tests if any(isinstance(x, ast.Return) for x in ast.walk(cfg.stmt[n]))]
+        if i == 1:
+            good = bool(returning) and all(any(cfg.dominates(t, e) for t in returning) for e in exe)
+        else:
+            good = bool(returning)
+        ctx.tri("6-short-circuit", run_, cfg.stmt[tests[0]] if tests else run_.node, good, bool(tests) and not returning,
+                f"a hit (`{flag}`) returns before _execute_func", f"`{flag}` is tested but the branch does not return: a cache hit does not prevent the execution", f"`{flag}` is not tested in a recognised way", key=f"hit-returns {i}")
+    grc = hit[0].value
+    lazy_hit = arg(grc, 7, "lazy")
+    fresh = [c for c in ast.walk(run_.node) if isinstance(c, ast.Call) and dotted(c.func) == "_update_all_results"]
+    lazy_fresh = arg(fresh[-1], 4, "lazy") if fresh else None
+    if lazy_fresh is not None:
+        same = lazy_hit is not None and norm(d.resolve(lazy_hit)) == norm(d.resolve(lazy_fresh))
+        ctx.tri("6-short-circuit", run_, grc, same, lazy_hit is None or not same, "the hit is routed with the same lazy flag as a fresh result",
+                f"a hit is routed with lazy={norm(lazy_hit) if lazy_hit is not None else 'the default (False)'} but a fresh result with lazy={norm(lazy_fresh)}: cached values are evaluated/stored differently", key="hit-routing")
     gr = P.func(f"{CA}.get_result_from_cache")
-    src = norm(gr.node)
-    ok = "if cache_key is not None and cache_key in cache" in src and "_update_all_results(func, r, output_name, all_results, lazy)" in src and "used_parameters.add(None)" in src and "return (True, result_from_cache)" in src
-    ctx.add("6-short-circuit", gr, gr.node, ok, "only a real key can hit; the hit is stored in the per-call results like a computed value" if ok else "get_result_from_cache changed", key="hit-impl")
-    upd = cfg.nodes(lambda s: isinstance(s, ast.If) and "cache_key is not None" in norm(s.test) and "use_cache" in norm(s.test))
-    ok = bool(upd) and any(isinstance(c, ast.Call) and dotted(c.func) == "update_cache" for c in ast.walk(cfg.stmt[upd[0]])) and all(cfg.dominates(e, upd[0]) for e in exe)
-    ctx.add("6-short-circuit", run_, cfg.stmt[upd[0]] if upd else run_.node, ok, "a result is stored only under a real key, after it was computed" if ok else "results are stored without a key (or before being computed)", key="store-guard")
-    uc = [s for s in walk_no_nested(run_.node) if isinstance(s, ast.Assign) and norm(s.targets[0]) == "use_cache"]
-    ok = bool(uc) and norm(uc[0].value) == "func.cache and cache is not None or task_graph() is not None"
-    ctx.add("6-short-circuit", run_, uc[0] if uc else run_.node, ok, "caching only for functions that asked for it (or under a task graph)" if ok else "use_cache no longer depends on func.cache", key="use-cache")
+    gd = Defs(gr)
+    upd = [c for c in ast.walk(gr.node) if isinstance(c, ast.Call) and dotted(c.func) == "_update_all_results"]
+    from_get = bool(upd) and len(upd[0].args) > 1 and "cache.get(" in norm(gd.resolve(upd[0].args[1]))
+    ctx.tri("6-short-circuit", gr, upd[0] if upd else gr.node, from_get, False, "the hit is stored in the per-call results like a computed value", "", "the cached value is not passed to _update_all_results in a recognised way", key="hit-impl")
+    # a result is stored only under a real key
+    upn = cfg.nodes(lambda s: any(isinstance(c, ast.Call) and dotted(c.func) == "update_cache" for part in header_parts(s) for c in ast.walk(part)))
+    if upn:
+        call = next(c for c in ast.walk(cfg.stmt[upn[0]]) if isinstance(c, ast.Call) and dotted(c.func) == "update_cache")
+        keyname = norm(arg(call, 1, "cache_key")) if arg(call, 1, "cache_key") is not None else "cache_key"
+        gs = guards(cfg, d, upn[0]) + guards(cfg, Defs(ast.Module(body=[], type_ignores=[])), upn[0])  # resolved and as written
+        keyed = any(t == f"{keyname} is None" and pol is False for t, pol in gs) or any(f"{keyname} is not None" in t and pol for t, pol in gs)
+        after = all(cfg.dominates(e, upn[0]) for e in exe)
+        ctx.tri("6-short-circuit", run_, cfg.stmt[upn[0]], keyed and after, not keyed, "a result is stored only under a real key, after it was computed",
+                f"update_cache is reached without a test that `{keyname}` is not None (conditions: {[t for t, _p in gs]}): results of calls that must not be cached are stored under None", key="store-guard")
+    else:
+        ctx.add("6-short-circuit", run_, run_.node, None, "UNDECIDED: no update_cache call in _run", key="store-guard")
+    # caching only for functions that asked for it
+    gs = guards(cfg, d, cfg.node(hit[0]))
+    txt = " && ".join(t for t, _p in gs)
+    ctx.tri("6-short-circuit", run_, hit[0], ".cache" in txt, bool(gs) and ".cache" not in txt, "caching only for functions that asked for it (or under a task graph)",
+            f"the cache is consulted under `{txt[:90]}`, which does not depend on func.cache: functions that did not ask for caching are cached", "no condition controls the cache lookup", key="use-cache")
     upc = P.func(f"{CA}.update_cache")
-    ok = "cache.put(cache_key, r, duration)" in norm(upc.node) and "cache.put(cache_key, r)" in norm(upc.node)
-    ctx.add("6-short-circuit", upc, upc.node, ok, "the computed value is stored under its key" if ok else "update_cache changed", key="update-cache")
+    ucfg = ctx.cfg(upc)
+    ps = upc.param_names()
+    puts = set(ucfg.nodes(lambda s: any(isinstance(c, ast.Call) and isinstance(c.func, ast.Attribute) and c.func.attr == "put" and len(c.args) >= 2 and norm(c.args[0]) == ps[1] and norm(c.args[1]) == ps[2] for part in header_parts(s) for c in ast.walk(part))))
+    ok = bool(puts) and ucfg.must_pass(ENTRY, EXIT, puts, normal_only=True)
+    ctx.add("6-short-circuit", upc, upc.node, ok, "the computed value is stored under its key on every path" if ok else "update_cache has a path that does not store the value under the key", key="update-cache")
+
+
+def check(ctx: Ctx) -> None:
+    for rule in (rule_key_complete, rule_invalidate, rule_isolation, rule_map_key, rule_miss_tolerant, rule_short_circuit):
+        ctx.run(rule)
 
 
 B, CF, R = "pipefunc/_pipeline/_base.py", "pipefunc/_pipeline/_cache.py", "pipefunc/map/_run.py"
